@@ -44,13 +44,18 @@ type cfg struct {
 	Depth      int
 	Concurrent bool // each received message processed in its own thread; copies injected back-to-back
 	Preempt    int
+	DTLS       bool // the connection runs over the real dtls/server.Session (read loop, datagram stream) instead of the in-memory session
 }
 
 func (c cfg) String() string {
-	if c.Concurrent {
-		return fmt.Sprintf("dedup concurrent copies m1=%v preempt<=%d", c.K[0], c.Preempt)
+	tr := ""
+	if c.DTLS {
+		tr = " transport=dtls-session"
 	}
-	return fmt.Sprintf("dedup history m1=%v m2=%v depth=%d", c.K[0], c.K[1], c.Depth)
+	if c.Concurrent {
+		return fmt.Sprintf("dedup concurrent copies m1=%v preempt<=%d%s", c.K[0], c.Preempt, tr)
+	}
+	return fmt.Sprintf("dedup history m1=%v m2=%v depth=%d%s", c.K[0], c.K[1], c.Depth, tr)
 }
 
 type replySig struct {
@@ -103,6 +108,7 @@ func scenario(c cfg) *mcx.Scenario {
 						vrt.Lib("process-msg", func() { cc.ProcessReceivedMessageWithHandler(req, h) })
 					})
 				}
+				opts.DTLS = c.DTLS
 				w = udpw.New(opts)
 				mk := func(k kind, i int) message.Message {
 					return message.Message{Type: k.Type, Code: codes.GET, MessageID: k.MID, Token: message.Token{0xC0 + byte(i)},
@@ -247,6 +253,10 @@ func main() {
 			scs = append(scs, scenario(cfg{K: [2]kind{{t1, r1, 7777}, {message.NonConfirmable, true, 1000}}, Depth: depth}))
 			scs = append(scs, scenario(cfg{K: [2]kind{{t1, r1, 5001}}, Concurrent: true, Preempt: ev.Pick(r, 2, 3)}))
 		}
+	}
+	// the same conn code over the real DTLS session type (reduced family)
+	for _, t1 := range types {
+		scs = append(scs, scenario(cfg{K: [2]kind{{t1, true, 5001}, {message.Confirmable, false, 5002}}, Depth: ev.Pick(r, 4, 5), DTLS: true}))
 	}
 	sum := mcx.Explore(r, scs, mcx.Config{Wall: ev.Pick(r, 3*time.Minute, 25*time.Minute)})
 	mcx.Report(r, scs, sum)
